@@ -1,10 +1,116 @@
-/- Property C12: the property theorems (and nothing else). -/
+/- Property C12: the property theorems (and nothing else). Proofs are in Proofs/TagsOk.lean,
+   Proofs/TagsSpec.lean, Proofs/TagsSpell.lean. -/
 import Frugal.Tags
+import Frugal.Proofs.TagsSpell
 import Frugal.Props.Instances
 namespace Frugal.C12
 open Frugal
+
 /-- the frugal tag takes precedence over the thrift tag -/
 theorem frugal_over_thrift (tag : String) (s : String) (h : tagLookup tag "frugal" = some s) :
     lookupStructTag tag = some ((splitComma [] s.toList).map trimSpace) := by
   simp [lookupStructTag, h]
+
+/-- the thrift tag carries the same components after its leading field name -/
+theorem thrift_minus_name (tag s : String) (h0 : tagLookup tag "frugal" = none)
+    (h : tagLookup tag "thrift" = some s) :
+    lookupStructTag tag = some (((splitComma [] s.toList).drop 1).map trimSpace) :=
+  thrift_drops_name tag s h0 h
+
+/-- spelling: `thrift:"name,<x>"` ≡ `frugal:"<x>"` -/
+theorem thrift_spelling_same (t1 t2 s1 s2 : String) (name : List Char)
+    (h1 : tagLookup t1 "frugal" = some s1)
+    (h2f : tagLookup t2 "frugal" = none) (h2 : tagLookup t2 "thrift" = some s2)
+    (hs : s2.toList = name ++ ',' :: s1.toList) (hname : ∀ c ∈ name, c ≠ ',') :
+    lookupStructTag t2 = lookupStructTag t1 :=
+  thrift_equiv_frugal t1 t2 s1 s2 name h1 h2f h2 hs hname
+
+/-- id, requiredness, type and options of a resolved field are those its tag spells -/
+theorem field_from_tag (hasInit : Bool) (gf : GoField) (idS reqS tyS : List Char)
+    (opts : List (List Char)) (f : Field)
+    (h : resolveField hasInit gf (idS :: reqS :: tyS :: opts) = some f) :
+    parseU16 idS = some f.id ∧ parseReq reqS = some f.req ∧ parseType gf.ty tyS = some f.ty ∧
+    parseOpts f.ty opts false = some f.nocopy ∧ f.name = gf.name :=
+  resolveField_from_tag hasInit gf idS reqS tyS opts f h
+
+/-- requiredness is `default` when omitted -/
+theorem requiredness_default_when_omitted (hasInit : Bool) (gf : GoField) (idS : List Char) :
+    resolveField hasInit gf [idS] = resolveField hasInit gf [idS, "default".toList] :=
+  (default_req_when_omitted hasInit gf idS).1
+
+/-- untagged, unexported and embedded fields are ignored -/
+theorem ignored (hasInit : Bool) (gf : GoField) (r : List GoField) (ids : List Nat)
+    (h : gf.anonymous = true ∨ gf.exported = false ∨ lookupStructTag gf.tag = none) :
+    resolveFieldsAux hasInit (gf :: r) ids = resolveFieldsAux hasInit r ids :=
+  ignored_fields hasInit gf r ids h
+
+/-- the field table holds exactly the resolved fields, by strictly increasing id -/
+theorem field_table (gs : GoStruct) (sd : SDesc) (h : resolveStruct gs = some sd) :
+    sd.fields.Pairwise (fun a b => a.id < b.id) ∧
+    ∃ fs, resolveFieldsAux gs.hasInit gs.fields [] = some fs ∧ ∀ f, f ∈ sd.fields ↔ f ∈ fs :=
+  resolveStruct_fields gs sd h
+
+/-- the annotation decides list versus set, and the element type is the element annotation's -/
+theorem list_versus_set (e : GoTy) (d : List Char) (allow : Bool) (t : Ty) (r : List Char)
+    (he : e ≠ .prim .uint8 "uint8") (h : doParseType (.slice e) true d allow = some (t, r)) :
+    ∃ tok r0 r1 r2 et, readToken d false = some (tok, r0) ∧ expectTok r0 '<' = some r1 ∧
+      doParseType e true r1 true = some (et, r2) ∧ expectTok r2 '>' = some r ∧ isValueType et = true ∧
+      ((tok = "set".toList ∧ t = .list true et) ∨ (tok = "list".toList ∧ t = .list false et)) :=
+  slice_result e d allow t r he h
+
+/-- the annotation decides enum versus i64 -/
+theorem enum_versus_i64 (k : GoKind) (nm : String) (d : List Char) (allow : Bool) (t : Ty) (r : List Char)
+    (h : doParseType (.prim k nm) true d allow = some (t, r)) :
+    t = .base .enum ↔
+      (kindTag k = some .i64 ∧ GoTy.prim k nm ≠ .prim .int64 "int64" ∧
+       ∃ tv rest, readToken d false = some (tv, rest) ∧ isInfix tv "i64".toList = false) :=
+  enum_rule k nm d allow t r h
+
+/-- spelling: spaces around tag components -/
+theorem spaces_same (comps : List (List Char × List Char × List Char))
+    (h : ∀ p ∈ comps, (∀ c ∈ p.1, isGoSpace c = true) ∧ (∀ c ∈ p.2.2, isGoSpace c = true) ∧
+      (∀ c ∈ p.1 ++ p.2.1 ++ p.2.2, c ≠ ',')) :
+    (splitComma [] ((comps.map fun p => p.1 ++ p.2.1 ++ p.2.2).foldr (fun x r => x ++ ',' :: r) [])).map trimSpace =
+    (splitComma [] ((comps.map fun p => p.2.1).foldr (fun x r => x ++ ',' :: r) [])).map trimSpace :=
+  splitComma_pad comps [] h _ _ rfl rfl
+
+/-- spelling: omitted ≡ redundant scalar annotation (any keyword of the kind's wire type) -/
+theorem scalar_annotation_same (k : GoKind) (nm : String) (allow : Bool) (tag : DTag)
+    (hk : kindTag k = some tag) :
+    (doParseType (.prim k nm) false [] allow).map (·.1) = some (baseOfTag tag) ∧
+    ∀ kw ∈ ["bool", "i8", "byte", "double", "i16", "i32", "i64", "string"],
+      isInfix kw.toList (keywordOf tag).toList = true →
+      (doParseType (.prim k nm) true kw.toList allow).map (·.1) = some (baseOfTag tag) :=
+  scalar_annotation_redundant k nm allow tag hk
+
+/-- spelling: byte ≡ i8 -/
+theorem byte_same_as_i8 (nm : String) (allow : Bool) :
+    doParseType (.prim .int8 nm) true "byte".toList allow =
+      doParseType (.prim .int8 nm) true "i8".toList allow :=
+  byte_is_i8 nm allow
+
+/-- spelling: package-qualified struct name ≡ bare name -/
+theorem qualified_struct_name_same (vt : GoTy) (pkg nm rest : List Char) (hp : identLike pkg)
+    (hn : identLike nm) (hrest : stopsIdent rest) (hnodot : ∀ r, rest ≠ '.' :: r)
+    (hkw1 : isInfix pkg "struct".toList = false) (hkw2 : isInfix nm "struct".toList = false)
+    (hend : ∃ tok sp, readToken rest true = some (tok, sp) ∧ (tok = [] ∨ tok = [':'] ∨ tok = ['>']))
+    (hnamed : vt.name ≠ "") :
+    matchAnnot vt .strct (pkg ++ '.' :: nm ++ rest) = matchAnnot vt .strct (nm ++ rest) :=
+  qualified_name_same vt pkg nm rest hp hn hrest hnodot hkw1 hkw2 hend hnamed
+
+/-- what the resolver accepts satisfies every well-formedness assumption of the codec theorems -/
+theorem accepted_schema_ok (U : Universe) : (schemaOf U).ok = true := schemaOf_ok U
+
+/- non-vacuity: the hypotheses of the spelling theorems are met by ordinary tags -/
+example : identLike "base".toList ∧ identLike "Msg".toList ∧ stopsIdent ">".toList ∧
+    isInfix "base".toList "struct".toList = false := by
+  refine ⟨⟨'b', "ase".toList, by decide, by decide, by decide⟩,
+    ⟨'M', "sg".toList, by decide, by decide, by decide⟩, ?_, by decide⟩
+  intro c r h
+  cases h
+  decide
+
+example : matchAnnot (.strct "Msg" 0) .strct "base.Msg>".toList =
+    matchAnnot (.strct "Msg" 0) .strct "Msg>".toList := by decide
+
 end Frugal.C12
